@@ -311,6 +311,46 @@ def task_rsearch(ctx, arg):
         replay=dict(kind='hook', **v), input_class=v['failure']) for v in viols]
     return dict(violations=violations, searches=[dict(name='rsearch/Fr::random', cases=st['cases'], seconds=round(time.time() - t, 2), props=['C07'])])
 
+HANDOVER_LAYERS = {
+    # layer -> (tasks whose refutations are imported, description)
+    'limbs': (['verus:divrem', 'verus:invr', 'kani:field_linear'], 'Fq/Fr ring-operation contracts (E1 Verus chains + E2 field-level Kani; decided under C06/C07/C12/C13)'),
+    'tower': (['mirvc:specs_tower', 'search:specs_tower'], 'Fq2/Fq4/Fq12 operation contracts (E3 obligations of fq2.rs / fq4.rs / fq12.rs; decided under C12/C17)'),
+    'groups': (['mirvc:specs_groups', 'gsearch:all'], 'group-law contracts of G<P> (E3 obligations of groups.rs; decided under C04/C15/C09)'),
+}
+
+def task_handover(ctx, arg):
+    """Hand-over for properties above a layer: their proofs call the layer below through contracts whose proofs are that
+    layer's own obligations (listed under the properties that own them).  Those obligations are not re-counted here; what
+    is imported is their REFUTATION: if one of them fails on the current tree - or its search finds a failing input -
+    the contract the upper-layer proof rests on is false and this property is reported violated too.  An undecided lower
+    layer leaves the stated hand-over assumption in place (it is decided under its own properties)."""
+    tasks_, what = HANDOVER_LAYERS[arg]
+    failed, undec, n = [], [], 0
+    violations = []
+    for t in tasks_:
+        r = run_task(ctx, t)
+        for o in r.get('obligations', []):
+            if o.get('aux'):
+                continue
+            n += 1
+            if o['status'] in ('failed', 'refuted'):
+                failed.append(o)
+            elif o['status'] != 'discharged':
+                undec.append(o['id'])
+        for v in r.get('violations', []):
+            violations.append(dict(v))
+    base = dict(engine='hand-over of the %s layer (results of this run)' % arg, backend='as in the imported obligations', seconds=0.0, function=what.split(' (')[0])
+    obligations = [dict(base, id='handover/%s_contracts_not_refuted' % arg, status='failed' if (failed or violations) else 'discharged',
+                        detail=('refuted: ' + ', '.join([o['id'] for o in failed[:6]] + [str(v.get('obligation')) for v in violations[:4]])) if (failed or violations) else
+                               '%s: %d obligations consulted, none refuted%s' % (what, n, ('; undecided (hand-over assumption stays): ' + ', '.join(undec[:5])) if undec else ''))]
+    for o in failed:
+        obligations.append(dict(o, id='handover/' + o['id']))
+    for o in obligations:
+        o.pop('props', None)
+    for v in violations:
+        v.pop('props', None)
+    return dict(obligations=obligations, violations=violations)
+
 # functions of the Verus chains that other properties hand over to (tagged onto those properties only)
 VERUS_FN_EXTRA = {'bititer_next': ['C05', 'C11'], 'u256_get_bit': ['C05', 'C11'], 'u256_bits': ['C05', 'C11'], 'fq_into_u256': ['C05', 'C11'], 'fq_div2': ['C14'], 'div2': ['C14']}
 
@@ -396,7 +436,6 @@ KANI_GROUPS = {
                   props=['C06', 'C07', 'C13', 'C12'], timeout=900),
     'dispatch': dict(harnesses=['fr_from_slice_dispatch_lo', 'fr_from_slice_dispatch_hi', 'fq_from_slice_dispatch_lo', 'fq_from_slice_dispatch_hi',
                                 'fr_from_hash_total', 'fq_to_big_endian_total'], props=['C13', 'C18'], timeout=1200),
-    'canon': dict(harnesses=['u256_mul_canonical', 'u256_square_canonical', 'sum_of_products_2_canonical'], props=['C07', 'C06', 'C12', 'C18'], timeout=3000),
     'dec_strict': dict(harnesses=['g1_from_slice_strict', 'g1_from_uncompressed_strict', 'g1_from_compressed_strict',
                                   'g2_from_slice_strict', 'g2_from_uncompressed_strict', 'g2_from_compressed_strict',
                                   'g1_from_compressed_parity', 'g2_from_compressed_parity'], props=['C08', 'C18'], timeout=2400),
@@ -414,6 +453,42 @@ def kani_scratch(ctx):
     with open(os.path.join(dst, 'src', 'lib.rs'), 'a') as fh:
         fh.write('\n#[cfg(kani)]\nmod verif_kani;\n')
     return dst
+
+def kani_playback(dst, env, harness, vals=None, timeout=1500):
+    """Replay of a Kani counterexample on the REAL code: Kani's concrete playback turns the CBMC counterexample into a unit test that
+    calls the harness (hence the real functions of the crate) natively with those values.  Returns dict(confirmed, vals, output).
+    With `vals` given (from a replay file) the test is injected directly instead of asking CBMC again."""
+    import re
+    src = os.path.join(dst, 'src', 'verif_kani.rs')
+    if vals is None:
+        cmd = ['cargo', 'kani', '-Z', 'stubbing', '-Z', 'unstable-options', '-Z', 'concrete-playback', '--concrete-playback=inplace',
+               '--harness', harness, '--output-format', 'terse']
+        try:
+            subprocess.run(cmd, cwd=dst, env=env, capture_output=True, text=True, timeout=timeout)
+        except subprocess.TimeoutExpired:
+            return dict(confirmed=False, vals=None, output='concrete playback generation timed out')
+        txt = open(src).read()
+        m = re.search(r'fn (kani_concrete_playback_%s_\w+)\(\) \{\s*let concrete_vals: Vec<Vec<u8>> = vec!\[(.*?)\];\s*kani::concrete_playback_run' % re.escape(harness), txt, re.S)
+        if not m:
+            return dict(confirmed=False, vals=None, output='Kani produced no concrete playback test for this failure')
+        vals = [[int(x) for x in v.split(',') if x.strip()] for v in re.findall(r'vec!\[([^\]]*)\]', m.group(2))]
+        test = m.group(1)
+    else:
+        test = 'kani_concrete_playback_%s_replay' % harness
+        body = ',\n'.join('        vec![%s]' % ', '.join(str(b) for b in v) for v in vals)
+        with open(src, 'a') as fh:
+            fh.write('\n#[test]\nfn %s() {\n    let concrete_vals: Vec<Vec<u8>> = vec![\n%s\n    ];\n    kani::concrete_playback_run(concrete_vals, %s);\n}\n' % (test, body, harness))
+    env2 = dict(env)
+    env2['CARGO_TARGET_DIR'] = os.path.join(prep.CACHE, 'target_kani_playback')
+    try:
+        p = subprocess.run(['cargo', 'kani', 'playback', '-Z', 'concrete-playback', '--', test], cwd=dst, env=env2, capture_output=True, text=True, timeout=timeout)
+    except subprocess.TimeoutExpired:
+        return dict(confirmed=False, vals=vals, output='native playback timed out')
+    out = p.stdout + p.stderr
+    ran = re.search(r'test result: (ok|FAILED)\. (\d+) passed; (\d+) failed', out)
+    confirmed = bool(ran and ran.group(1) == 'FAILED' and int(ran.group(3)) >= 1)
+    pm = re.search(r"panicked at ([^\n]*)\n([^\n]*)", out)
+    return dict(confirmed=confirmed, vals=vals, output=(pm.group(0) if pm else out[-400:]).replace('\n', ' | ')[:500])
 
 def task_kani(ctx, group):
     g = KANI_GROUPS[group]
@@ -468,9 +543,23 @@ def task_kani(ctx, group):
                 else:
                     o.update(status='undecided', detail='CBMC did not decide (%s): %s' % (r.get('status'), '; '.join(str(c.get('description')) for c in (failed + undet)[:3])))
             obligations.append(o)
+        # replay the verifier's counterexample of every refuted harness on the real code (native execution of the harness)
+        violations = []
+        for o in obligations:
+            if o['status'] != 'refuted':
+                continue
+            try:
+                pb = kani_playback(dst, env, o['function'])
+            except Exception as e:
+                pb = dict(confirmed=False, vals=None, output='playback failed: %r' % (e,))
+            o['playback'] = pb['output']
+            if pb['confirmed']:
+                violations.append(dict(obligation=o['id'], props=g['props'], input_class='kani-counterexample',
+                                       summary='Kani counterexample of %s replayed natively on the real code: %s' % (o['function'], pb['output'][:200]),
+                                       replay=dict(kind='kani', harness=o['function'], group=group, concrete_vals=pb['vals'], failed_checks=o['detail'], native_output=pb['output'])))
         import shutil
         shutil.rmtree(dst, ignore_errors=True)
-    return dict(obligations=obligations)
+    return dict(obligations=obligations, violations=violations)
 
 # ---------------------------------------------------------------------------------------------
 def setup():
